@@ -90,9 +90,9 @@ Judge(e) ==
       /\ Has(e, "claim") => PrintT(<<IF ClaimOK(want, e.claim) THEN "CLAIM-OK" ELSE "CLAIM-MISMATCH", l>>)
       /\ IF Has(e.run, "ok") THEN
            IF ~ShapeOK(e, want) THEN Reject(l, "shape", [tags |-> want.tags])
-           ELSE LET d == Diff(e, want) IN d = <<>> \/ Reject(l, "state", Expected(want, d))
+           ELSE LET d == Diff(e, want) IN IF d = <<>> THEN TRUE ELSE Reject(l, "state", Expected(want, d))
          ELSE IF Has(e.run, "err") /\ e.run.err = "ExecutorLiftFail" /\ Has(e.run, "at") THEN
-           e.run.at = want.pc \/ Reject(l, "state", Expected(want, <<"pc">>))
+           IF e.run.at = want.pc THEN TRUE ELSE Reject(l, "state", Expected(want, <<"pc">>))
          ELSE IF Has(e.run, "err") THEN Reject(l, "run-error", [tags |-> want.tags, err |-> e.run.err])
          ELSE Reject(l, "run-panic", [tags |-> want.tags])
 
